@@ -6,8 +6,9 @@ def _h(name, unwind=8, quick=None, thorough=None, **kw):
     return dict(name=name, src='harnesses/C14.c', func='h_' + name, kernels=['C14_functor'], unwind=unwind,
                 quick=quick or [_c(3)], thorough=thorough or [_c(4)], bounds=B2, **kw)
 HARNESSES = [_h(n) for n in ('fn_transpose', 'fn_reshape', 'fn_flip', 'fn_slice', 'fn_invert', 'comp2', 'comp3', 'comp_sum', 'compb_inner', 'compb_inner_curry', 'compb_outer', 'compb_extract', 'extract_repeated')] + [
-  _h('fn_sum', quick=[_c(3, VAR=v) for v in (1, 2, 3, 4)], thorough=[_c(4, VAR=v) for v in (1, 2, 3, 4)])] + [
-  _h(n, quick=[_c(3, VAR=v) for v in (1, 2, 3, 4, 5)], thorough=[_c(4, VAR=v) for v in (1, 2, 3, 4, 5)]) for n in ('fn_add', 'fn_subtract')]
+  _h('fn_sum', quick=[_c(3, VAR=v) for v in (1, 3)], thorough=[_c(3, VAR=v) for v in (2, 4)] + [_c(4, VAR=v) for v in (1, 2, 3, 4)])] + [   # fn_sum: 112-165 s per variant
+  _h('fn_add', quick=[_c(3, VAR=v) for v in (2, 3)], thorough=[_c(3, VAR=v) for v in (1, 4, 5)] + [_c(4, VAR=v) for v in (1, 2, 3, 4, 5)]),
+  _h('fn_subtract', quick=[_c(3, VAR=v) for v in (1, 2, 3, 4, 5)], thorough=[_c(4, VAR=v) for v in (1, 2, 3, 4, 5)])]
 OUTSIDE = [
  'the compute-graph sub-claim (get_compute_graph: one uniquely identified node per operand occurrence and per operation, edges from each operation\'s inputs; node ids are hashes of type names): '
  'it depends on types only - there is no symbolic variable and nothing for a solver to quantify over; evaluating it concretely through this pipeline would be enumeration in disguise',
